@@ -117,6 +117,36 @@ async def _(c):
         c.mark('notnotdone:e')
 
 
+async def _boom():
+    raise KeyError('boom')
+
+
+@op('await_failed_and_cancelled_task')
+async def _(c):
+    # the outcome of a finished task is delivered by raising: that, too, is a completed wait
+    from usim import Concurrent, TaskCancelled
+    tasks = {}
+    try:
+        async with Scope() as s:
+            tasks['f'] = s.do(_boom())
+    except Concurrent:
+        pass
+    async with Scope() as s:
+        tasks['c'] = s.do(_ret(1))
+        tasks['c'].cancel('token')
+    for label, exc_type in (('failed', KeyError), ('cancelled', TaskCancelled)):
+        t = tasks[label[0]]
+        c.mark(label + ':s')
+        try:
+            await t
+        except exc_type:
+            pass
+        c.mark(label + ':e')
+        c.mark(label + '_done:s')
+        await t.done
+        c.mark(label + '_done:e')
+
+
 @op('await_ended_scope')
 async def _(c):
     async with Scope() as s:
@@ -323,7 +353,7 @@ async def _(c):
     c.mark('scope_finished_child:e')
 
 
-POSITIONS = ('root', 'child', 'until', 'lock')
+POSITIONS = ('root', 'child', 'until', 'lock', 'after_interrupt')
 
 
 async def spinner(c, j):
@@ -347,6 +377,13 @@ async def subject(c, name, position):
         lk = Lock()
         async with lk:
             await fn(c)
+    elif position == 'after_interrupt':
+        # the activity has just been interrupted at a postponement (until() on an already set flag)
+        f = Flag()
+        await f.set()
+        async with until(f):
+            await instant
+        await fn(c)
     else:
         raise InvalidCase(position)
 
